@@ -621,6 +621,38 @@ func (g *Gen) SetupBound(rule string) (sc BoundScenario, ok bool) {
 			return a.manyV1(tx1, tx2)
 		}
 		return sc, true
+	case "v1-devaddr-override-timelock":
+		// The developer fund's siafund output sits at the old address and is spent with the unlock conditions of the new
+		// one (address override from HardforkDevAddr.Height on). Those conditions are unlock conditions like any others:
+		// their timelock holds the spend back until child height T.
+		lock, known := g.W.Locks[net.HardforkDevAddr.NewAddress]
+		if !known || lock.UC == nil || lock.UC.Timelock == 0 || child >= net.HardforkV2.RequireHeight {
+			return sc, false
+		}
+		T := lock.UC.Timelock
+		if child > T {
+			return sc, false
+		}
+		sc.From, sc.To = T-min64(T, 2), T+1
+		sc.Want = func(a *Adv) bool { return a.Child >= T && a.Child >= net.HardforkDevAddr.Height }
+		sc.Build = func(a *Adv) (types.Block, consensus.V1BlockSupplement, bool) {
+			if !a.v1Allowed() {
+				return types.Block{}, consensus.V1BlockSupplement{}, false
+			}
+			for _, e := range a.G.C.Store.SortedSF() {
+				if e.SiafundOutput.Address != net.HardforkDevAddr.OldAddress {
+					continue
+				}
+				txn := types.Transaction{
+					SiafundInputs:  []types.SiafundInput{{ParentID: e.ID, UnlockConditions: *lock.UC, ClaimAddress: types.Address{0xCC}}},
+					SiafundOutputs: []types.SiafundOutput{{Value: e.SiafundOutput.Value, Address: types.Address{0xBB}}},
+				}
+				SignV1(a.CS, &txn, false)
+				return a.oneV1(txn)
+			}
+			return types.Block{}, consensus.V1BlockSupplement{}, false
+		}
+		return sc, true
 	case "v1-until-require-height":
 		R := net.HardforkV2.RequireHeight
 		if R < child+1 || R > child+6 {
@@ -687,7 +719,7 @@ var BoundRules = []string{
 	"v1-output-maturity", "v2-output-maturity", "v1-unlock-conditions-timelock", "v2-uc-policy-timelock", "v1-signature-timelock", "v1-signature-timelock-partial-coverage",
 	"v2-above", "v2-after", "v1-revision-window-start", "v1-revision-window-unchanged", "v1-proof-window", "v1-formation-window-start", "v1-proof-after-window-revised-in-block",
 	"v2-revision-proof-height", "v2-proof-height", "v2-expiration-height", "v2-formation-proof-height",
-	"v1-until-require-height", "v2-from-allow-height", "v2-ephemeral-parent-maturity", "v1-in-block-claim-maturity",
+	"v1-until-require-height", "v2-from-allow-height", "v2-ephemeral-parent-maturity", "v1-in-block-claim-maturity", "v1-devaddr-override-timelock",
 }
 
 // EmptyBlock applies an honest block without transactions (used to advance the chain).
